@@ -353,7 +353,7 @@ fn module_variants(text: &str, base: &Snap, thorough: bool, out: &mut CaseOut) -
         });
     }
     // b2: one shared boundary carrying k edges on indexed ports.
-    let ks: &[usize] = if thorough { &[2, 3] } else { &[2] };
+    let ks: &[usize] = if thorough && ne <= 7 { &[2, 3] } else { &[2] };
     for &k in ks {
         for sub in vf_explore::combi::k_subsets(ne, k) {
             variants += 1;
